@@ -499,6 +499,10 @@ func runC17(c *Ctx) {
 	c.Rule("R7")
 	c17Round3(c)
 
+	// R8 a failed first provide puts the region's keys back in the queue
+	c.Rule("R8")
+	c17FailedProvideKeepsKeys(c)
+
 	c.Rule("R4")
 	c17WorkerStartsByDraining(c)
 	{
@@ -740,4 +744,77 @@ func joinStr(ss []string) string {
 		out += s
 	}
 	return out
+}
+
+// c17FailedProvideKeepsKeys: the key list handed to failedProvide is filled with every key of
+// the region whenever the operation is a first provide — whatever else (a log level) also
+// switches the collection on.  The keys themselves are pruned from the region while the
+// records are on the wire, so that list is the only copy a failed provide can requeue.
+func c17FailedProvideKeepsKeys(c *Ctx) {
+	p := c.P
+	f := c.Fn("(*dht/provider.SweepingProvider).provideRegions")
+	info := f.Info()
+	cf := f.CFG()
+	reprov := paramObj(f, "reprovide")
+	fps := f.Calls("(*dht/provider.SweepingProvider).failedProvide")
+	if !c.Check(K(f.Name, "requeues on failure"), f.Pos(), len(fps) == 1 && len(fps[0].Args) == 3 && reprov != nil, "a failed provide is handed to failedProvide with its keys", "found "+itoa(len(fps))+" calls") {
+		return
+	}
+	keys := eng.ObjOf(info, fps[0].Args[1])
+	var apps []*ast.AssignStmt
+	okOnly := keys != nil
+	for _, as := range assignsTo(f, func(l ast.Expr) bool { return keys != nil && eng.IsObj(info, l, keys) }) {
+		app, isApp := eng.IsCallTo(info, as.Rhs[0], "builtin.append")
+		if !isApp || len(app.Args) != 2 || !eng.IsObj(info, app.Args[0], keys) {
+			okOnly = false
+			continue
+		}
+		apps = append(apps, as)
+	}
+	if !c.Check(K(f.Name, "key list built by appends"), fps[0].Pos(), okOnly && len(apps) == 1, "the list handed to failedProvide is built by one append", "found "+itoa(len(apps))+" appends, or another assignment") {
+		return
+	}
+	as := apps[0]
+	app, _ := eng.IsCallTo(info, as.Rhs[0], "builtin.append")
+	// the enclosing loop over the region's keys
+	var loop *ast.RangeStmt
+	for x := p.Parent(as); x != nil; x = p.Parent(x) {
+		if rg, ok := x.(*ast.RangeStmt); ok {
+			loop = rg
+			break
+		}
+	}
+	okLoop := false
+	if loop != nil {
+		if it, isIt := eng.IsCallTo(info, loop.X, "dht/provider/internal/keyspace.ValuesIter"); isIt && len(it.Args) >= 1 && loop.Key != nil {
+			if sel, isSel := eng.Unparen(it.Args[0]).(*ast.SelectorExpr); isSel && eng.NameOf(sel.Sel) == "Keys" {
+				okLoop = eng.IsObj(info, app.Args[1], eng.ObjOf(info, loop.Key)) && cf.Dominates(cf.LocOf(loop.X), cf.LocOf(fps[0]))
+			}
+		}
+	}
+	if !c.Check(K(f.Name, "collects the region's keys"), as.Pos(), okLoop, "the list is filled from the loop over the region's own keys, which every failing region has passed", "append is not `keys = append(keys, h)` in a loop over ValuesIter(r.Keys, …) dominating the failure call") {
+		return
+	}
+	// conditions on the append inside that loop
+	outer := cf.DominatingConds(cf.LocOf(loop.X))
+	var inner []eng.CondEdge
+	for _, ce := range cf.DominatingCondsAt(cf.LocOf(as)) {
+		isOuter := false
+		for _, o := range outer {
+			if o == ce {
+				isOuter = true
+			}
+		}
+		if !isOuter {
+			inner = append(inner, ce)
+		}
+	}
+	at := func(leaf ast.Expr) (string, bool, bool) {
+		if eng.IsObj(info, leaf, reprov) {
+			return "reprovide", true, true
+		}
+		return "", false, false
+	}
+	ok := eng.Sufficient(inner, at, []string{"reprovide"}, func(v map[string]bool) bool { return !v["reprovide"] })
+	c.Check(K(f.Name, "keys kept for every first provide"), as.Pos(), ok, "when the operation is a first provide every key of the region is remembered (so that a failure after the region was pruned can put them back in the queue)", "the append is skipped for some first provide (its conditions are not implied by !reprovide)")
 }
